@@ -428,4 +428,53 @@ theorem uniq_pres (T : Table) (hnx : ∀ i, txhOf (T i) = none) (U : List Blk)
   poolAdd := by intro s x h _; exact h
   poolDel := by intro s x h; exact h
 
+/-! ### the producer path -/
+
+theorem delDup_subset (T : Table) : ∀ (l : List Nat) (t : Nat), t ∈ delDup T l → t ∈ l := by
+  intro l
+  induction l with
+  | nil => intro t h; simp [delDup] at h
+  | cons a rest ih =>
+    intro t h
+    simp only [delDup] at h
+    split at h
+    · exact List.mem_cons_of_mem _ (ih t h)
+    · rcases List.mem_cons.mp h with rfl | h'
+      · simp
+      · exact List.mem_cons_of_mem _ (ih t h')
+
+/-- `DelDupTx` leaves no hash twice. -/
+theorem delDup_out_nodup (T : Table) : ∀ l : List Nat, ((delDup T l).map (fun t => (T t).hash)).Nodup := by
+  intro l
+  induction l with
+  | nil => simp [delDup]
+  | cons a rest ih =>
+    simp only [delDup]
+    split
+    · exact ih
+    · rename_i hn
+      simp only [List.map_cons, List.nodup_cons]
+      refine ⟨?_, ih⟩
+      intro hm
+      apply hn
+      obtain ⟨u, hu, hue⟩ := List.mem_map.mp hm
+      exact List.any_eq_true.mpr ⟨u, delDup_subset T rest u hu, by simpa using hue⟩
+
+/-- what the node keeps when it executes a body as its own block: no hash twice, nothing the
+duplicate lookup reports, nothing that fails the executor's `checkTx`. -/
+theorem produce_spec (T : Table) (s : State) (b : Blk) :
+    ((produce T s b).map (fun t => (T t).hash)).Nodup ∧
+    (∀ t ∈ produce T s b, t ∈ b.txs ∧ hasTx T s t = false ∧ checkTx s.hi s.lo (T t) b.height b.time = true) := by
+  unfold produce
+  refine ⟨?_, ?_⟩
+  · have h0 := delDup_out_nodup T b.txs
+    have h1 : (((delDup T b.txs).filter (fun t => !hasTx T s t)).filter
+        (fun t => checkTx s.hi s.lo (T t) b.height b.time)).Sublist (delDup T b.txs) :=
+      List.Sublist.trans List.filter_sublist List.filter_sublist
+    exact List.Nodup.sublist (List.Sublist.map _ h1) h0
+  · intro t ht
+    have h1 := List.mem_filter.mp ht
+    have h2 := List.mem_filter.mp h1.1
+    exact ⟨delDup_subset T b.txs t h2.1, by simpa using h2.2, h1.2⟩
+
 end C27
